@@ -945,6 +945,10 @@ pub fn c08_wide_grammar() -> Vec<SPacket> {
             });
         }
     }
+    // every byte value as payload and as correlation data (bytes that look like packet headers, UTF-8 lead bytes,
+    // 0x00 and 0xFF included)
+    v.push(SPacket::Publish { dup: false, qos: 1, retain: false, topic: b"b".to_vec(), pid: Some(0x0A0D), props: vec![], payload: (0..=255u8).collect() });
+    v.push(SPacket::Publish { dup: true, qos: 2, retain: true, topic: b"b".to_vec(), pid: Some(0xFFFF), props: vec![pr(0x09, PVal::Bin((0..=255u8).rev().step_by(2).collect())), pr(0x08, PVal::Str(b"r".to_vec()))], payload: vec![0xFF, 0x00, 0x30, 0xC3] });
     // exactly the buffer size, one less, one more (QoS 0, topic "t", no properties)
     for total in [299usize, 300, 301] {
         // fixed header 3 bytes (two-byte remaining length) + 2 + 1 topic + 1 property length
